@@ -79,6 +79,10 @@ func main() {
 		os.Exit(2)
 	}
 	profile := os.Args[1]
+	if profile == "probe" {
+		runProbe(os.Args[2])
+		return
+	}
 	fs := flag.NewFlagSet(profile, flag.ExitOnError)
 	seed := fs.Int64("seed", 1, "PRNG seed")
 	hist := fs.Int("hist", 4, "histories")
